@@ -346,6 +346,39 @@ def install_election(ex):
             return ex.ok(SInt(seqlen(v.t)), st)
         return None
 
+    def loop_candidates(C_, kind, s_, L, W, pre, fr, i):
+        """generic quantified candidates for loops that credit votes through transfer():
+        a candidate that is not hopeful keeps its tally (transfer credits hopeful candidates only)"""
+        out = []
+        if (CAND, 'vote') in W.heap and (CAND, 'state') not in W.heap:
+            varr0 = C.heap_array(pre, CAND, 'vote', 'val')
+            sarr0 = C.heap_array(pre, CAND, 'state', 'str')
+
+            def f(st, it):
+                c = z3.Int('c!q1')
+                v = C.heap_array(st, CAND, 'vote', 'val')
+                return z3.ForAll([c], z3.Implies(z3.Select(sarr0, c) != str_id('hopeful'),
+                                                 z3.Select(v, c) == z3.Select(varr0, c)))
+            out.append(('Q:non-hopeful tallies unchanged', f))
+        return out
+    def dynamic_facts(st):
+        """counters as cardinalities, on the *current* heap (lemma card_pos: a member of the class makes its
+        counter positive)"""
+        if not st.ghost.get('election_facts'):
+            return []
+        c = z3.Int('c!card')
+        sarr = C.heap_array(st, CAND, 'state', 'str')
+        C.heap_array(st, CAND, 'pending', 'opt:bool')
+        pn, pv = st.heap[(CAND, 'pending?')], st.heap[(CAND, 'pending')]
+        g = lambda n: ghost_get(st, n).t        # noqa
+        is_ = lambda n: z3.Select(sarr, c) == str_id(n)     # noqa
+        body = z3.Implies(inC(c), z3.And(
+            z3.Implies(is_('hopeful'), g('nH') >= 1), z3.Implies(is_('elected'), g('nE') >= 1),
+            z3.Implies(is_('defeated'), g('nD') >= 1), z3.Implies(is_('withdrawn'), g('nW') >= 1),
+            z3.Implies(z3.And(is_('elected'), z3.Not(z3.Select(pn, c)), z3.Select(pv, c)), g('nP') >= 1)))
+        return [z3.ForAll([c], body), g('nP') <= g('nE')]
+    ex.hooks['dynamic_facts'] = dynamic_facts
+    ex.hooks['loop_candidates'] = loop_candidates
     ex.hooks['after_havoc'] = lambda st, keys: after_havoc(ex, st, keys)
     ex.hooks['pre_call'] = pre_call
     ex.hooks['model_field'] = model_field
